@@ -115,24 +115,24 @@ Proof.
 Qed.
 End Descent.
 
-(* the step of the model, as a descent direction *)
+(* the Gram identity of the Levenberg-Marquardt step, on the step function of the model:
+   exact arithmetic only; J, jtj, jtk are free-standing (any J whose Gram matrix is jtj, any jtk) *)
 Theorem kernel_step_descent pl r (J jtj jtk : qmat) (lam : Qc) :
   wf pl 1 jtk ->
   (forall a c, a < pl -> c < pl ->
      mget QIF jtj a c = sumf r (fun k => cmul (cj (mget QIF J k a)) (mget QIF J k c))) ->
   (0 <= lam)%Qc ->
   LuNonsing.kernel_trivial QIF (j1_matrix pl jtj lam) pl ->
-  exists d q, kernel_step pl jtj jtk lam = Some d /\
-    sumf pl (fun i => cmul (cj (nth i d qi0 : QIF)) (mget QIF jtk i 0)) = qi_of_Qc q /\
+  exists d, kernel_step pl jtj jtk lam = Some d /\
+    let dv := fun i => nth i d qi0 : QIF in
+    let q := (qsum r (fun k => qi_nrm (Jd pl J dv k)) + lam * qsum pl (fun i => qi_nrm (dv i)))%Qc in
+    sumf pl (fun i => cmul (cj (dv i)) (mget QIF jtk i 0)) = qi_of_Qc q /\
     (0 <= q)%Qc /\
     (q = 0%Qc <-> forall i, i < pl -> mget QIF jtk i 0 = qi0).
 Proof.
   intros Hw Hg Hl Hk.
   destruct (kernel_step_spec pl jtj jtk lam Hw Hk) as (d & Hd & Hlen & Hsol & Hiff).
-  exists d.
-  exists (qsum r (fun k => qi_nrm (Jd pl J (fun i => nth i d qi0) k))
-          + lam * qsum pl (fun i => qi_nrm (nth i d qi0)))%Qc.
-  split; [exact Hd|]. split; [|split; [|split]].
+  exists d. split; [exact Hd|]. cbv zeta. split; [|split; [|split]].
   - exact (descent_value pl r J jtj jtk lam (fun i => nth i d qi0) Hg Hsol).
   - exact (descent_nonneg pl r J lam (fun i => nth i d qi0) Hl).
   - intros Hz. exact (descent_zero_stationary pl r J jtj jtk lam (fun i => nth i d qi0) Hg Hsol Hl Hz).
@@ -160,4 +160,21 @@ Proof.
     apply qi_eqb_eq. vm_compute. reflexivity.
   - unfold Qcle. simpl. unfold Qle. simpl. lia.
   - apply LV.SelfCal.AutoKernelQI.kernel_trivial_1. apply qi_neqb. vm_compute. reflexivity.
+Qed.
+
+(* the theorem applied to the instance: the conclusion follows from the hypotheses just shown *)
+Example kernel_step_descent_applied :
+  let J : qmat := [[mkqi 1 8 0 1]; [mkqi 1 8 0 1]; [mkqi 1 8 0 1]] in
+  let jtj : qmat := [[mkqi 3 64 0 1]] in
+  let jtk : qmat := [[mkqi 1 4 0 1]] in
+  let lam := Q2Qc (1 # 10) in
+  exists d, kernel_step 1 jtj jtk lam = Some d /\
+    let dv := fun i => nth i d qi0 : QIF in
+    let q := (qsum 3 (fun k => qi_nrm (Jd 1 J dv k)) + lam * qsum 1 (fun i => qi_nrm (dv i)))%Qc in
+    sumf 1 (fun i => cmul (cj (dv i)) (mget QIF jtk i 0)) = qi_of_Qc q /\
+    (0 <= q)%Qc /\
+    (q = 0%Qc <-> forall i, i < 1 -> mget QIF jtk i 0 = qi0).
+Proof.
+  cbv zeta. destruct kernel_step_descent_instance as (H1 & H2 & H3 & H4).
+  exact (kernel_step_descent 1 3 _ _ _ _ H1 H2 H3 H4).
 Qed.
